@@ -31,10 +31,10 @@ func (r *vfRand) Intn(n int) int {
 	}
 	return int(r.U64() % uint64(n))
 }
-func (r *vfRand) Range(lo, hi int) int      { return lo + r.Intn(hi-lo+1) }
-func (r *vfRand) Bool() bool                { return r.U64()&1 == 1 }
-func (r *vfRand) Chance(num, den int) bool  { return r.Intn(den) < num }
-func (r *vfRand) Fork() *vfRand             { return &vfRand{s: r.U64()} }
+func (r *vfRand) Range(lo, hi int) int     { return lo + r.Intn(hi-lo+1) }
+func (r *vfRand) Bool() bool               { return r.U64()&1 == 1 }
+func (r *vfRand) Chance(num, den int) bool { return r.Intn(den) < num }
+func (r *vfRand) Fork() *vfRand            { return &vfRand{s: r.U64()} }
 
 type vfB struct{ L []*big.Int }
 
